@@ -13,8 +13,16 @@ open BdModel.Sched Driver
 
 structure Case where
   cfg   : Cfg
-  pre   : Nat → Nat     -- 0 none, 1 met, 2 unmet
+  pre   : Nat → Nat     -- harness flavour of the step's precondition (see `preOk`); 3 = answered by the harness (op "pre")
   obeys : Nat → Bool
+
+/-- Does `dag.EvalConditions(step.Preconditions)` return nil for the harness flavour `p` of a precondition?
+    That boolean is all the scheduler looks at (`Act.visitLaunch i preOk`): 1 met, 6 `re:` pattern that matches;
+    2 unmet, 7 `re:` that does not match, 8 invalid `re:` (dropped by MatchPattern: nothing matches), and
+    4 / 5 = the condition CANNOT BE EVALUATED (its command substitution exits non-zero / cannot be started):
+    `evalCondition` then returns `errEvalCondition`, an error like `errConditionNotMet`, and Schedule does not tell
+    the two apart - the step is skipped. (0 = no precondition: the model ignores the argument.) -/
+def preOk (p : Nat) : Bool := !(p == 2 || p == 4 || p == 5 || p == 7 || p == 8)
 
 def tryAct (c : Cfg) (s : State) (a : Act) : State × Bool :=
   match step c s a with
@@ -61,7 +69,7 @@ def scanFrom (k : Case) (s : State) (start : Nat) : State :=
       let brk := s.canceled && (s.nd i).status == .none && (isReady k.cfg s i).1
       let s1 := act k.cfg s (.visitDecide i)
       match s1.loop with
-      | .launching j => if k.pre j == 3 then (s1, false) else (act k.cfg s1 (.visitLaunch j (k.pre j != 2)), false)
+      | .launching j => if k.pre j == 3 then (s1, false) else (act k.cfg s1 (.visitLaunch j (preOk (k.pre j))), false)
       | _ => (s1, brk)
     | _ => acc) (s, false)).1
 
